@@ -102,7 +102,10 @@ def run_case(ctx, case):
     if r.get("not_empty_after_clear"):
         ctx.violation("runtime_not_empty_after_clear", detail)
         return
-    t = ctx.call(dict(base, op="threads", threads=6, rounds=3, yield_mask=case["yield_mask"]), cpu_limit=60)
+    treq = dict(base, op="threads", threads=6, rounds=3, yield_mask=case["yield_mask"])
+    if ctx.tier == "thorough" and len(ctx.recorded) < 4:
+        ctx.record(dict(treq, threads=4, rounds=2))
+    t = ctx.call(treq, cpu_limit=60)
     ctx.count("thread_runs", t.get("thread_runs", 0))
     ctx.count("schedules_executed")
     if t.get("thread_panics"):
@@ -115,3 +118,39 @@ def run_case(ctx, case):
     outs = tuple(sorted(set(next(iter(x.get("out", {"panic": 1}))) for x in r["fresh"])))
     nontrivial = bool(fns) or "error" in outs
     ctx.ok((key_fns, outs), nontrivial, sample={"src": src[:400], "outcomes": outs})
+
+
+# ----------------------------------------------------------------------------------------
+# thorough tier: recorded `threads` requests replayed under ThreadSanitizer (-Zbuild-std) and,
+# reduced, under Miri's data-race detector with several schedules (-Zmiri-many-seeds)
+
+REGEX_PROGRAMS = [
+    'x = parse_regex!(.s, r\'(?P<w>\\w+)\')\ny = match(.t, r\'^[a-z]+$\')\nz = replace(.s, r\'o+\', "0")\n[x, y, z]',
+    'parse_groks!(.s, patterns: ["%{word:w} %{word:v}", "%{notSpace:all}"]) ?? {}',
+    'map_values(.obj, recursive: true) -> |v| { if is_string(v) { upcase!(v) } else { v } }',
+]
+
+
+def post_run(tier, seed, merged):
+    if tier != "thorough":
+        return
+    from .. import sanitize
+    from ..gen.program import core_event
+    import random
+    rng = random.Random(seed)
+    evs = [{"e": enc(core_event(rng))} for _ in range(4)]
+    reqs = list(merged.get("recorded", []))[:24]
+    for src in REGEX_PROGRAMS:
+        reqs.append({"op": "threads", "src": src, "probe": False, "events": evs, "threads": 4, "rounds": 3, "yield_mask": 0x5555})
+    res = sanitize.tsan_replay(reqs, "C14")
+    merged["sanitizers"]["tsan"] = {k: v for k, v in res.items() if k != "stderr"}
+    if res["status"] == "report":
+        merged["violations"]["tsan:%s@%s" % (res["kind"][:50], res.get("location", "?"))] = {
+            "count": res.get("reports", 1), "detail": {"stderr": res.get("stderr")}, "case": {"requests": reqs},
+            "index": None, "proc": None}
+    small = [dict(r, threads=3, rounds=1, events=r["events"][:2]) for r in reqs[-3:]]
+    res = sanitize.miri_replay(small, "C14", many_seeds=4, timeout=5400)
+    merged["sanitizers"]["miri_many_seeds"] = {k: v for k, v in res.items() if k != "stderr"}
+    if res["status"] == "report":
+        merged["violations"]["miri:%s@%s" % (res["kind"][:60], res.get("location", "?"))] = {
+            "count": 1, "detail": {"stderr": res.get("stderr")}, "case": {"requests": small}, "index": None, "proc": None}
